@@ -946,7 +946,10 @@ class ReachingDefs:
                     rv = s["rv"]
                     if (rv["k"] == "ref" and rv.get("mut")) or (rv["k"] == "rawptr" and rv.get("mut", True)):
                         l2, p2 = norm_place(rv["place"])
-                        if p2 != () or not any(e["k"] == "deref" for e in rv["place"]["p"]):
+                        # (a plain reborrow `&mut *L` is not a new object — except for a byte-buffer out-parameter
+                        # `out: &mut Vec<u8>`, whose appends are what the function is about)
+                        lty = (body.j["locals"][l2].get("ty") or "").replace(" ", "") if l2 < len(body.j["locals"]) else ""
+                        if p2 != () or not any(e["k"] == "deref" for e in rv["place"]["p"]) or lty in ("&mutalloc::vec::Vec<u8>", "&mutVec<u8>"):
                             # `&mut L` / `&mut (*L).field` handed to a callee: the place holds an updated value afterwards
                             self._add((bb, "m%d" % i), l2, p2, "mutref", (s, i), True)
             t = blk["term"]
@@ -1425,7 +1428,8 @@ class Terms:
         for a in sorted(al):
             for site in self.rd.by_local.get(a, []):
                 l_, p_, kind_, payload_, strong_ = self.rd.sites[site]
-                if site[0] in reach and ((kind_ == "assign" and p_ != ()) or (kind_ == "mutref") or (kind_ == "call" and p_ != ())):
+                # (a whole-object reborrow in the block that sets the call up is how the reference is handed over, not a write)
+                if site[0] in reach and ((kind_ == "assign" and p_ != ()) or (kind_ == "mutref" and not (p_ == () and site[0] == start_bb)) or (kind_ == "call" and p_ != ())):
                     out.append(a)
                     break
         return out
@@ -2395,6 +2399,12 @@ def byte_segments(t):
             return byte_segments(prev) + [("array", (args[0],))]
         if is_(t[1], "Extend::extend", "Vec::extend_from_slice", "Vec::extend", "Vec::append") and len(args) == 1:
             return byte_segments(prev) + byte_segments(args[0])
+        if is_(t[1], "ciborium::ser::into_writer", "Write::write_all") and args:
+            # a writer over a byte vector appends: what was there, then what this call writes (kept as the same call on an
+            # empty buffer)
+            ps = byte_segments(prev)
+            if ps != [prev] or prev == ("default",):
+                return ps + [("upd", t[1], ("call", "alloc::vec::Vec::<T>::new", (), 0), args)]
     if isinstance(t, tuple) and len(t) == 2 and t[0] == "phi" and len(t[1]) == 2:
         # the buffer after `for part in [a, b, c] { buffer.extend_from_slice(&part) }`: a loop over an array literal that
         # appends each element as it comes is the elements appended in order
